@@ -57,7 +57,7 @@ class PDDLFunction:
     def copy(self) -> "PDDLFunction":
         """Creates a copy of the function."""
         copied_function = PDDLFunction(
-            self.name, self.signature, self.repeating_variables
+            self.name, self.signature.copy(), self.repeating_variables.copy()
         )
         copied_function.stored_value = self.stored_value
         return copied_function
